@@ -6,7 +6,7 @@ From Coq.Strings Require Import Byte.
 From GI Require Import Lib.Bytes Gen.TxtarWriteConsts Txtar.Txtar
   TxtarWrite.Path TxtarWrite.TxtarWrite TxtarWrite.PathFacts TxtarWrite.WriteFacts
   TxtarWrite.FuelFacts TxtarWrite.NulFacts TxtarWrite.RelFacts TxtarWrite.RelWrite TxtarWrite.GoodWrite
-  TxtarWrite.SavedirFacts TxtarWrite.NameFacts.
+  TxtarWrite.SavedirFacts TxtarWrite.NameFacts TxtarWrite.SortFacts TxtarWrite.WalkFacts.
 Import ListNotations.
 
 (* A cleaned name that the guard of Write lets through (not absolute, not "..", no
@@ -136,6 +136,24 @@ Theorem C15_resolve_nul_free : forall cwd p,
 Proof. exact resolve_nul_free. Qed.
 Print Assumptions C15_resolve_nul_free.
 
+
+(* filepath.Walk, literally, on the archived directory as a tree (entries of each
+   directory in byte order of their names, a directory before its contents, SkipDir for
+   a dot directory and nothing for a dot file unless -a): for a tree with distinct names in
+   every directory, txtar-c on the tree is the flat model [savedir] on the list of the
+   tree's regular files given in any order, and the files are visited in the order
+   [walk_order] gives. *)
+Theorem C15_savedir_tree_flat : forall fl rt t,
+  rnode_ok (RDir rt) -> Permutation.Permutation t (rflat [] (RDir rt)) ->
+  savedir_tree fl rt = savedir fl t.
+Proof. exact savedir_tree_flat. Qed.
+Print Assumptions C15_savedir_tree_flat.
+
+Theorem C15_rwalk_order : forall fl rt,
+  rnode_ok (RDir rt) ->
+  rwalk fl [] (RDir rt) = filter (fun pd => negb (dot_skipped fl (fst pd))) (walk_order (rflat [] (RDir rt))).
+Proof. exact rwalk_order. Qed.
+Print Assumptions C15_rwalk_order.
 
 (* What tree_ok demands of every file name: the names txtar cannot represent (empty, with
    leading or trailing white space, containing a newline) are excluded; Examples.v shows
